@@ -51,6 +51,10 @@ var pkgSubst = map[string]map[string]string{
 		"os":        dropBase + "simos",
 		"io/ioutil": dropBase + "simioutil",
 		"github.com/containernetworking/cni/pkg/invoke": dropBase + "siminvoke",
+		"github.com/containernetworking/cni/libcni":     dropBase + "simlibcni",
+	},
+	"pkg/api/docker": {
+		"os": dropBase + "simos",
 	},
 	"pkg/api/k8s": {
 		"os":        dropBase + "simos",
